@@ -378,8 +378,11 @@ impl Ctx {
             "wall_s": (wall * 100.0).round() / 100.0,
             "violations": new_violations,
         });
-        let _ = fs::create_dir_all(format!("{VERIF}/evidence"));
-        let _ = fs::write(format!("{VERIF}/evidence/{}.json", self.property), serde_json::to_string_pretty(&ev).unwrap() + "\n");
+        // Evidence describes /repo itself; runs against a scratch copy
+        // (SEED_REPO, used for sensitivity runs) write elsewhere.
+        let ev_dir = if repo_dir() == "/repo" { format!("{VERIF}/evidence") } else { format!("{VERIF}/out/scratch-evidence") };
+        let _ = fs::create_dir_all(&ev_dir);
+        let _ = fs::write(format!("{ev_dir}/{}.json", self.property), serde_json::to_string_pretty(&ev).unwrap() + "\n");
         for l in &lines {
             println!("{l}");
         }
